@@ -147,6 +147,7 @@ type engine struct {
 	siteVisits map[string]map[*ssa.BasicBlock]int
 	symVisits  map[string]map[*ssa.BasicBlock]int // symbolic tests taken, per call-site chain (like siteVisits)
 	loops      map[*ssa.BasicBlock][]*ssa.BasicBlock
+	globals    map[string]*ssa.Global
 	stack      []*frame
 	npaths     int
 	nprune     int
@@ -540,6 +541,10 @@ func (e *engine) val(fr *frame, v ssa.Value) *Term {
 	case *ssa.Const:
 		return constTerm(v)
 	case *ssa.Global:
+		if e.globals == nil {
+			e.globals = map[string]*ssa.Global{}
+		}
+		e.globals[shortName(v.String())] = v
 		return &Term{Op: "addr", Args: []*Term{{Op: "global", Name: shortName(v.String()), Typ: deref(v.Type())}}, Typ: v.Type()}
 	case *ssa.Function:
 		return &Term{Op: "fn", Name: shortName(v.String()), Fn: v, Typ: v.Type()}
@@ -604,6 +609,15 @@ func (e *engine) load(pl *Term, T types.Type) *Term {
 	cur, ok := e.mem[rootKey(root)]
 	if !ok {
 		cur = root
+		// a package-level table that only its initialiser writes (an ordered list of rules /
+		// steps with their closures): its elements are what the composite literal says
+		if root.Op == "global" {
+			if g := e.globals[root.Name]; g != nil {
+				if t := e.w.constGlobal(g); t != nil {
+					cur = t
+				}
+			}
+		}
 	}
 	for i := len(path) - 1; i >= 0; i-- {
 		p := path[i]
@@ -1335,6 +1349,9 @@ func (e *engine) inlineable(fn *ssa.Function, depth int) bool {
 		return false
 	}
 	file := e.w.posFile(root.Pos())
+	if file == "" {
+		file = e.w.posFile(fn.Pos()) // a closure of a package-level literal: its parent is the synthetic init
+	}
 	if file == "" || !e.w.fileInScope(file) {
 		return false
 	}
@@ -1412,6 +1429,21 @@ func (e *engine) doCall(fr *frame, site ssa.Instruction, c *ssa.CallCommon, preF
 						}
 					}
 				}
+			}
+		}
+	}
+	// an invoke on an interface value that was made, on this path, from a concrete module type
+	// (a private interface naming one capability of a keeper / store): the concrete method
+	if c.IsInvoke() && len(args) > 0 && target == nil {
+		recv := args[0]
+		for recv.Op == "iface" && len(recv.Args) == 1 {
+			recv = recv.Args[0]
+		}
+		if recv.Typ != nil && privateModuleIface(c.Method) {
+			if m := e.concreteMethod(recv.Typ, c.Method); m != nil {
+				target = m
+				args = append([]*Term{recv}, args[1:]...)
+				name = funcName(m)
 			}
 		}
 	}
@@ -2319,4 +2351,43 @@ func boundMethod(fn *ssa.Function) *ssa.Function {
 		}
 	}
 	return nil
+}
+
+// concreteMethod: the module method that an interface method resolves to for a value of
+// concrete type T (nil when T is itself an interface or the method is not module code).
+func (e *engine) concreteMethod(T types.Type, m *types.Func) *ssa.Function {
+	if _, isIface := T.Underlying().(*types.Interface); isIface {
+		return nil
+	}
+	sel := e.w.Prog.MethodSets.MethodSet(T).Lookup(m.Pkg(), m.Name())
+	if sel == nil {
+		return nil
+	}
+	fn := e.w.Prog.MethodValue(sel)
+	if fn == nil {
+		return nil
+	}
+	if fn.Synthetic != "" { // promoted / pointer wrapper: the declared method
+		if obj, ok := sel.Obj().(*types.Func); ok {
+			if real := e.w.Prog.FuncValue(obj); real != nil {
+				fn = real
+			}
+		}
+	}
+	if fn.Blocks == nil || fn.Pkg == nil || !strings.HasPrefix(fn.Pkg.Pkg.Path(), modPath) {
+		return nil
+	}
+	return fn
+}
+
+// privateModuleIface: m is a method of an unexported interface type declared in the module (a
+// helper's private name for one capability of its dependency).  Exported interfaces are the
+// module's stated seams (expected keepers, stores) and stay opaque.
+func privateModuleIface(m *types.Func) bool {
+	sig, ok := m.Type().(*types.Signature)
+	if !ok || sig.Recv() == nil || m.Pkg() == nil || !strings.HasPrefix(m.Pkg().Path(), modPath) {
+		return false
+	}
+	n, ok := sig.Recv().Type().(*types.Named)
+	return ok && !n.Obj().Exported()
 }
